@@ -94,4 +94,57 @@ theorem decode_push (n : Fin 32) : decode (0x60 + n.val) = .push n := by
   rcases n with ⟨k, hk⟩
   repeat (first | (cases k with | zero => rfl | succ k => ?_) | omega)
 
+/-! ## EXP -/
+
+theorem expI_eq (s : IState) (hwf : s.gas.remaining < U64) (hw : ∀ w ∈ s.stack, w < W) :
+    (expI s).toDone =
+      (match s.stack.reverse with
+       | a :: b :: rest =>
+         let c := Spec.Arith.expCost (enabled s.spec GasCalc.SpecId.SPURIOUS_DRAGON) b
+         if s.gas.remaining < c then Done.halt .OutOfGas [] { s with stack := (b :: rest).reverse }
+         else .next { charge s c with stack := (Spec.Arith.exp a b :: rest).reverse }
+       | _ => .halt .StackUnderflow [] s) := by
+  unfold expI
+  rcases hrev : s.stack.reverse with _ | ⟨a, _ | ⟨b, rest⟩⟩
+  · have : s.stack.length < 2 := by rw [← List.length_reverse, hrev]; decide
+    rw [bind_halt _ _ _ _ _ _ (popTop2_underflow s this)]; rfl
+  · have : s.stack.length < 2 := by rw [← List.length_reverse, hrev]; simp
+    rw [bind_halt _ _ _ _ _ _ (popTop2_underflow s this)]; rfl
+  · have hs : s.stack = rest.reverse ++ [b, a] := by
+      have := congrArg List.reverse hrev; simpa using this
+    have hb : b < W := hw b (by rw [hs]; simp)
+    rw [bind_ok _ _ _ _ _ (popTop2_ok s _ a b hs)]
+    simp only []
+    have hget : getS ({ s with stack := rest.reverse ++ [b] } : IState) = .ok _ _ := rfl
+    rw [bind_ok _ _ _ _ _ hget]
+    have hcost : GasCalc.expCost s.spec b =
+        some (Spec.Arith.expCost (enabled s.spec GasCalc.SpecId.SPURIOUS_DRAGON) b) := by
+      unfold GasCalc.expCost; exact Props.C03.expCost_eq _ b hb
+    simp only [hcost, gasOrFail]
+    generalize Spec.Arith.expCost (enabled s.spec GasCalc.SpecId.SPURIOUS_DRAGON) b = c
+    by_cases hg : s.gas.remaining < c
+    · have := gasCharge_fail ({ s with stack := rest.reverse ++ [b] } : IState) c hg
+      rw [bind_halt _ _ _ _ _ _ this]
+      simp only [hg, if_true, Exec.toDone, List.reverse_cons]
+    · have := gasCharge_ok ({ s with stack := rest.reverse ++ [b] } : IState) c hwf (by show c ≤ s.gas.remaining; omega)
+      rw [bind_ok _ _ _ _ _ this]
+      have hst := setTop_ok
+        ({ s with stack := rest.reverse ++ [b], gas := { s.gas with remaining := s.gas.remaining - c } } : IState)
+        rest.reverse b (Arith.exp a b) rfl
+      have hsame : ({ ({ s with stack := rest.reverse ++ [b] } : IState) with
+          gas := { s.gas with remaining := s.gas.remaining - c } } : IState) =
+          { s with stack := rest.reverse ++ [b], gas := { s.gas with remaining := s.gas.remaining - c } } := rfl
+      rw [hsame, hst]
+      simp only [Exec.toDone, hg, if_false, Props.C03.exp_eq a b hb, List.reverse_cons, charge]
+
+theorem step_exp (s : IState) (hcode : s.code[s.pc]? = some 0x0a) (hwf : WF s) :
+    step s = .pure (expRule s) := by
+  unfold step
+  rw [hcode]
+  have hdec : decode 0x0a = .exp := rfl
+  simp only [hdec, execInstr, execPure]
+  show Outcome.pure (expI (adv s)).toDone = _
+  rw [expI_eq (adv s) hwf.gas hwf.words]
+  rfl
+
 end Revm.Proofs.EvmStep
